@@ -791,7 +791,12 @@ def explore(tier, seed, res=None, replay=None):
               ("f('a')", 'f("a")'), ("f(1.50)", "f(1.5)"), ("f(2)", "f(2.0)"), ("f(x,k=1)", "f(x, k = 1)"),
               ("f(-(x+z))", "f(-x+z)"), ("f(-(x**2))", "f(-x**2)"), ("f((x<z)<3)", "f(x<z<3)"),
               ("f(1)", "f(True)"), ("f(0)", "f(False)"), ("f(x, 1.0)", "f(x, True)"),
-              ("f(x, '1')", "f(x, 1)"), ("f(0.5)", "f(.5)"), ("f(2)", "f(2.50)")]
+              ("f(x, '1')", "f(x, 1)"), ("f(0.5)", "f(.5)"), ("f(2)", "f(2.50)"),
+              # calls that differ only in a keyword's value / name / an argument position
+              ("f(x, k=2)", "f(x, k=3)"), ("f(x, k=z)", "f(x, k=x)"), ("f(x, k=2)", "f(x, m=2)"),
+              ("f(x, k=2, m=3)", "f(x, k=3, m=2)"), ("f(x, z)", "f(z, x)"), ("f(x, k=g(x))", "f(x, k=g(z))"),
+              ("g(x, k='a')", "g(x, k='b')"), ("f(x, 2)", "f(x, k=2)"), ("f(x)", "g(x)"),
+              ("f(x, k=2)", "f(x,k = 2)")]
     run_pairs(res, pairs, "pairs")
     return res
 
